@@ -66,9 +66,8 @@ func (e *Engine) localsEnv(st *State, fr *Frame, env *Env) {
 			v.T = deref(a.Type())
 			name := a.Comment
 			seen[name]++
-			if seen[name] > 1 {
-				env.vars[fmt.Sprintf("%s#%d", name, seen[name])] = v
-			}
+			// name#k is the k-th declaration of the name in the function; the plain name is the last one
+			env.vars[fmt.Sprintf("%s#%d", name, seen[name])] = v
 			// parameters are copied into locals of the same name; the spec name of a parameter means its entry value
 			isParam := false
 			for _, p := range fn.Params {
@@ -81,6 +80,37 @@ func (e *Engine) localsEnv(st *State, fr *Frame, env *Env) {
 				continue
 			}
 			env.vars[name] = v
+		}
+	}
+	// the slice a "for ... range <expr>" loop iterates over (an unnamed temporary): rangeslice, rangeslice#2, ...
+	nrs := 0
+	seenIdx := map[ssa.Value]bool{}
+	for _, b := range fn.Blocks {
+		for _, ins := range b.Instrs {
+			ia, ok := ins.(*ssa.IndexAddr)
+			if !ok {
+				continue
+			}
+			var idxAlloc ssa.Value
+			switch ix := ia.Index.(type) {
+			case *ssa.UnOp:
+				if a, ok := ix.X.(*ssa.Alloc); ok && a.Comment == "rangeindex" {
+					idxAlloc = a
+				}
+			case *ssa.Phi:
+				if ix.Comment == "rangeindex" {
+					idxAlloc = ix
+				}
+			}
+			if idxAlloc == nil || seenIdx[idxAlloc] {
+				continue
+			}
+			seenIdx[idxAlloc] = true
+			nrs++
+			if v, bound := fr.regs[ia.X]; bound {
+				env.vars[fmt.Sprintf("rangeslice#%d", nrs)] = v
+				env.vars["rangeslice"] = v
+			}
 		}
 	}
 	for _, p := range fn.Params {
@@ -424,6 +454,9 @@ func (e *Engine) frameFormula(st *State, h string) string {
 	u := st.unit
 	fr0 := st.frames[0]
 	env := &Env{eng: e, st: st, pkg: e.pkgOf(u.Fn), vars: map[string]Val{}, snap: st.unitOld, where: "modifies of " + u.Name}
+	for k, v := range u.entryFreeVars {
+		env.vars[k] = v
+	}
 	for _, p := range u.Fn.Params {
 		if v, ok := fr0.regs[p]; ok {
 			env.vars[p.Name()] = v
